@@ -20,6 +20,20 @@ class Obj:
         return f"Obj({self.__dict__})"
 
 
+class UFunc:
+    """picklable handle on the uninterpreted function `name` of the current explorer"""
+
+    def __init__(self, name, nargs):
+        self.name, self.nargs = name, nargs
+
+    def __call__(self, *args):
+        from symx import core
+        return core.cur().func(self.name, self.nargs)(*args)
+
+    def __reduce__(self):
+        return (UFunc, (self.name, self.nargs))
+
+
 class FContainer:
     """function container: f.g(p, q)"""
 
